@@ -539,7 +539,9 @@ impl FarmGen {
             let k = self.rng.gen_range(0..2);
             funds.remove(k);
         }
-        let mine: Vec<&Position> = f.positions.values().filter(|q| q.receiver == sender && q.lp_asset.denom == p.info.lp_denom).collect();
+        // the sender's own positions: of this pool's LP token, or now and then of any LP token
+        let any_lp = self.rng.gen_range(0..4) == 0;
+        let mine: Vec<&Position> = f.positions.values().filter(|q| q.receiver == sender && (any_lp || q.lp_asset.denom == p.info.lp_denom)).collect();
         let others: Vec<&Position> = f.positions.values().filter(|q| q.receiver != sender).collect();
         self.n_explicit += 1;
         let lock_id = match self.rng.gen_range(0..6) {
